@@ -1,10 +1,12 @@
 #!/bin/sh
 # Offline setup: everything is built from files on disk. The checks themselves rebuild harness
-# crates from /repo's working tree on every run; this only verifies the tool chain is present.
+# crates, the expander and scanners from /repo's working tree on every run; this pre-builds the
+# dependency-only parts so that the first check does not pay for them.
 set -e
 cd "$(dirname "$0")"
 export CARGO_NET_OFFLINE=true
 command -v cargo >/dev/null
 cargo kani --version >/dev/null
 mkdir -p work evidence
+( cd tools/expander && cargo build --release --offline --target-dir ../../work/target-expander >/dev/null 2>&1 ) || echo "warning: expander pre-build failed (the checks will retry)"
 echo "setup ok"
